@@ -120,3 +120,12 @@ Theorem C02_ising_model_heatbath_pipeline_stationary : forall g beta L,
         (pipeline_cfg (update_cfg (hb_update (ising_ham g) (bond_weights (ising_ham g)) beta))).
 Proof. exact ising_model_heatbath_pipeline_stationary. Qed.
 Print Assumptions C02_ising_model_heatbath_pipeline_stationary.
+
+(* ... and with a longitudinal field (weighted cluster update), complete configuration space, no hypothesis *)
+From QmcV Require Import Proofs.UnconditionalFieldPipeline Model.Steps.
+Theorem C02_ising_model_heatbath_pipeline_stationary_with_field : forall g beta L,
+  ising_edges_ok g = true -> 0 < beta ->
+  wstat (canon (ising_ham g) (all_substates (i_nvars g)) L) (fun c => sse_weight (ising_ham g) beta (snd c))
+        (pipeline_cfg_w (long_wf g) (update_cfg (hb_update (ising_ham g) (bond_weights (ising_ham g)) beta))).
+Proof. exact ising_model_heatbath_pipeline_stationary_with_field. Qed.
+Print Assumptions C02_ising_model_heatbath_pipeline_stationary_with_field.
